@@ -355,6 +355,148 @@ pub fn run(c: &mut Ctx) {
         let args: Vec<String> = xs.iter().map(show).collect();
         c.op(&format!("td.sum {}", args.join(" ")).trim_end().to_string(), &gs(|| xs.iter().sum::<TimeDelta>(), |d| show(&d)));
     }
+    // ---- division: operands built around the divisor (remainder classes, both signs) -----------
+    let n_div = c.n(30000, 400000);
+    for _ in 0..n_div {
+        let k = loop {
+            let k = gen_i32(c);
+            if k != 0 {
+                break k;
+            }
+        };
+        let ka = (k as i64).abs();
+        // secs = q*k + carry with the carry at the ends of its range, nanos around multiples of k
+        let carry = *c.rng.pick(&[0, 1, -1, ka - 1, -(ka - 1), ka / 2, -(ka / 2)]);
+        let q = match c.rng.below(4) {
+            0 => c.rng.range(-3, 3),
+            1 => (MAX_S / ka) * if c.rng.chance(1, 2) { 1 } else { -1 },
+            _ => c.rng.range(MIN_S / ka, MAX_S / ka),
+        };
+        let s0 = (q as i128 * k as i128 + carry as i128).clamp(MIN_S as i128, MAX_S as i128) as i64;
+        let n0 = match c.rng.below(5) {
+            0 => 0,
+            1 => 999_999_999,
+            2 => (ka.min(999_999_999) as u32).saturating_sub(c.rng.below(2) as u32),
+            3 => ((c.rng.below(1_000_000_000) as i64 / ka * ka + c.rng.range(-1, 1)).clamp(0, 999_999_999)) as u32,
+            _ => c.rng.below(1_000_000_000) as u32,
+        };
+        let a = match TimeDelta::new(s0, n0) {
+            Some(a) => a,
+            None => continue,
+        };
+        let (s, n) = raw(&a);
+        let ea = ns_of(&a);
+        let div = guard(|| a.checked_div(k));
+        c.op(&format!("td.div {s} {n} {k}"), &match &div { Ok(o) => so(*o), Err(()) => "panic".into() });
+        match &div {
+            Ok(Some(r)) => {
+                let err = (ns_of(r) * k as i128 - ea).abs();
+                let kk = (k as i128).abs();
+                c.count(if err == 0 { "div:exact" } else if err < kk { "div:err<1ns" } else { "div:1ns<=err<2ns" });
+                c.count(match (ea < 0, k < 0) {
+                    (false, false) => "div:+/+",
+                    (false, true) => "div:+/-",
+                    (true, false) => "div:-/+",
+                    (true, true) => "div:-/-",
+                });
+                if err >= 2 * kk || !inv(r) {
+                    c.fail("checked_div is off by two nanoseconds or more", &format!("td.div {s} {n} {k} -> {}", show(r)));
+                }
+                if (k == 1 && *r != a) || (k == -1 && ns_of(r) != -ea) {
+                    c.fail("checked_div by a unit is not exact", &format!("td.div {s} {n} {k} -> {}", show(r)));
+                }
+            }
+            Ok(None) => c.fail("checked_div refuses a non-zero divisor", &format!("td.div {s} {n} {k}")),
+            Err(()) => c.fail("checked_div panicked", &format!("td.div {s} {n} {k}")),
+        }
+    }
+    // ---- Display: every number of fraction figures, both signs --------------------------------
+    let n_disp = c.n(5000, 60000);
+    for i in 0..n_disp {
+        let figs = (i % 10) as u32; // 0 = no fraction
+        let n0: u32 = if figs == 0 {
+            0
+        } else {
+            let mut d = 1 + c.rng.below(10u64.pow(figs) - 1);
+            if d % 10 == 0 {
+                d += 1 + c.rng.below(9);
+            }
+            (d * 10u64.pow(9 - figs)) as u32
+        };
+        let s0 = match c.rng.below(4) {
+            0 => *c.rng.pick(&[0, -1, 1, 9, 10, -10, MAX_S - 1, MIN_S + 1]),
+            1 => c.rng.range(MIN_S + 1, MAX_S - 1),
+            _ => c.rng.log_i64().clamp(MIN_S + 1, MAX_S - 1),
+        };
+        let d = match TimeDelta::new(s0, n0) {
+            Some(d) => d,
+            None => continue,
+        };
+        let (s, n) = raw(&d);
+        c.op(&format!("td.display {s} {n}"), &gs(|| d.to_string(), |t| hex(t.as_bytes())));
+        match guard(|| d.to_string()) {
+            Ok(text) => {
+                if parse_display(&text) != Some(ns_of(&d)) {
+                    c.fail("Display is not the exact decimal number of seconds", &format!("{s} {n} -> {text}"));
+                }
+                let shown = text.split_once('.').map(|(_, f)| f.len() - 1).unwrap_or(0);
+                c.count(&format!("disp:figs={shown}"));
+                c.count(if text.starts_with('-') { "disp:negative" } else { "disp:nonneg" });
+            }
+            Err(()) => c.fail("Display panicked", &format!("{s} {n}")),
+        }
+    }
+    // ---- Sum with a direct oracle: exact total, or a panic at the first partial sum out of range
+    let n_sum2 = c.n(4000, 40000);
+    for _ in 0..n_sum2 {
+        let k = c.rng.below(7) as usize;
+        let big = [
+            TimeDelta::MAX,
+            TimeDelta::MIN,
+            TimeDelta::MAX.checked_div(2).unwrap(),
+            TimeDelta::MIN.checked_div(2).unwrap(),
+            TimeDelta::MAX.checked_sub(&TimeDelta::nanoseconds(1)).unwrap(),
+            TimeDelta::MIN.checked_add(&TimeDelta::nanoseconds(1)).unwrap(),
+        ];
+        let xs: Vec<TimeDelta> = (0..k)
+            .map(|_| match c.rng.below(4) {
+                0 => *c.rng.pick(&big),
+                1 => TimeDelta::nanoseconds(c.rng.range(-2, 2)),
+                2 => gen_valid(c),
+                _ => TimeDelta::nanoseconds(c.rng.log_i64()),
+            })
+            .collect();
+        let args: Vec<String> = xs.iter().map(show).collect();
+        let got = guard(|| xs.iter().sum::<TimeDelta>());
+        let got2 = guard(|| xs.iter().copied().sum::<TimeDelta>());
+        c.op(
+            &format!("td.sum {}", args.join(" ")).trim_end().to_string(),
+            &match &got { Ok(d) => show(d), Err(()) => "panic".into() },
+        );
+        let mut acc: i128 = 0;
+        let mut overflow = false;
+        for x in &xs {
+            acc += ns_of(x);
+            if !in_range(acc) {
+                overflow = true;
+                break;
+            }
+        }
+        c.count(if overflow { "sum:panic" } else { "sum:ok" });
+        match (&got, overflow) {
+            (Ok(d), false) => {
+                if ns_of(d) != acc || !inv(d) {
+                    c.fail("Sum is not the exact total", &format!("td.sum {} -> {}", args.join(" "), show(d)));
+                }
+            }
+            (Err(()), true) => {}
+            (Ok(d), true) => c.fail("Sum passed through a value outside the range without a panic", &format!("td.sum {} -> {}", args.join(" "), show(d))),
+            (Err(()), false) => c.fail("Sum panicked although every partial sum is in range", &format!("td.sum {}", args.join(" "))),
+        }
+        if got.as_ref().ok().map(show) != got2.as_ref().ok().map(show) {
+            c.fail("Sum over references and over values disagree", &format!("td.sum {}", args.join(" ")));
+        }
+    }
 }
 
 /// independent reader of the Display form: [-]P0D | [-]PT<int>[.<frac>]S  ->  nanoseconds
